@@ -521,6 +521,7 @@ async fn watch_membership_changes(
     membership_changes_tx: watch::Sender<MembershipChange>,
 ) {
     let mut last_network_set = BTreeSet::new();
+    let mut last_members = NodeMembership::new();
     while let Some(members) = changes.next().await {
         info!(
             self_node_id = %self_node_id,
@@ -559,7 +560,9 @@ async fn watch_membership_changes(
 
             network.disconnect(*addr);
 
-            if let Some(member) = members.get(node_id) {
+            // The node is gone from (or has changed address in) the new snapshot,
+            // the member as it was is only known to the previous one.
+            if let Some(member) = last_members.get(node_id) {
                 membership_changes.left.push(member.clone());
             }
         }
@@ -580,5 +583,6 @@ async fn watch_membership_changes(
 
         let _ = membership_changes_tx.send(membership_changes);
         last_network_set = new_network_set;
+        last_members = members;
     }
 }
